@@ -7,6 +7,27 @@
 use crate::errors::ParseError;
 use chrono::{NaiveDate, NaiveDateTime, NaiveTime};
 
+/// Refuse content outside ASCII
+///
+/// The SWIFT character sets are ASCII, and the field parsers slice their input at fixed byte
+/// offsets, which is only sound when every character is one byte.
+pub fn ensure_ascii(input: &str, field_name: &str) -> Result<(), ParseError> {
+    if input.is_ascii() {
+        return Ok(());
+    }
+    Err(ParseError::InvalidFormat {
+        message: format!(
+            "{} contains characters outside the SWIFT character set",
+            field_name
+        ),
+    })
+}
+
+/// Country part (first two letters) of a currency code; the whole text if it is shorter
+pub fn currency_prefix(currency: &str) -> &str {
+    currency.get(0..2).unwrap_or(currency)
+}
+
 /// Parse a string with exact length requirement
 pub fn parse_exact_length(
     input: &str,
